@@ -24,6 +24,14 @@
 (* either call), and SGX verification reads the root of trust from a file  *)
 (* or fetches it from a URL (right PEM, another root, 404, garbage).       *)
 (*                                                                         *)
+(* TIME: the certificates of the SGX chain have validity periods and the   *)
+(* verifier reads the clock of the machine it runs on.  Env chooses the    *)
+(* time zone of that machine (POSIX TZ strings) and may put one edge of    *)
+(* one certificate's period close to "now": issued / expiring within the   *)
+(* hour (in period: the chain must verify whatever the zone), expired /    *)
+(* not yet valid by an hour (out of period: it must be refused whatever    *)
+(* the zone).  Nothing on the Ledger path reads the clock.                 *)
+(*                                                                         *)
 (* The SHAPE of every DIGEST the verifier compares (or turns into a key)   *)
 (* is a dimension too: SHA-256(custom message) and SHA-256(attestation key *)
 (* | QE auth data) in the report data fields, the public-keys hash inside  *)
@@ -73,11 +81,12 @@ CONSTANTS Platforms,        \* subset of {"ledger", "sgx"}
 VARIABLES dev, cfg, alt,    \* Env: ground truth, shape of the answers, the one alteration
           net,              \* Env: [ud: "hex" | what the node does, at: which call, rootvia: "file" | "url"]
           shape,            \* Env: [site: which signature (or "all" / "none"), cls: "<r class>/<s class>"]
+          clock,            \* Env: [tz, who: "none" | "pck" | "pca" | "root", kind: "far" | "issued1h" | ...]
           digest,           \* Env: [site: which digest (or "none"), cls: "ord" | "z1" | "z2" | "lz" | "sp" | "nl"]
           hist,             \* Env: "single" | "reattest" | "inplace" | "sameout" | "reuse0" | "two"
           pc, acc,          \* Sys: program counter, what was gathered so far
           obs               \* the observation (AttestFlowProps)
-vars == <<dev, cfg, alt, net, shape, digest, hist, pc, acc, obs>>
+vars == <<dev, cfg, alt, net, shape, clock, digest, hist, pc, acc, obs>>
 
 (***************************************************************************)
 (* Ground truth of a genuine device.                                       *)
@@ -149,15 +158,40 @@ SgxAlts(c) ==
                                                \* by URL only: 4 = HTTP 404, 5 = a body that is no PEM
 
 (***************************************************************************)
+(* Time.                                                                   *)
+(***************************************************************************)
+Zones == {"UTC0", "PST8", "JST-9", "<+14>-14", "<-12>12"}
+West  == {"PST8", "<-12>12"}          \* local time BEHIND UTC
+East  == {"JST-9", "<+14>-14"}        \* local time AHEAD of UTC
+NoClock == [tz |-> "UTC0", who |-> "none", kind |-> "far"]
+InKinds  == {"issued1h", "expires1h"}
+OutKinds == {"expired1h", "notyet1h"}
+ClockChoices(p, fr, c, a, nt, sh) ==
+    {NoClock} \cup
+    (IF p = "sgx" /\ a = [site |-> "none", idx |-> 0] /\ c = Cfg1(p, fr) /\ nt = Net("hex", 0, "file")
+        /\ sh = [site |-> "none", cls |-> "any"]
+     THEN {[tz |-> z, who |-> "none", kind |-> "far"] : z \in Zones}
+          \cup {[tz |-> z, who |-> w, kind |-> k] : z \in Zones, w \in {"pck", "pca", "root"},
+                                                   k \in InKinds \cup OutKinds}
+     ELSE {})
+\* is the certificate `who` inside its validity period, as the verifier's clock sees it?  A verifier
+\* that takes LOCAL time for UTC (Bug "localtime") sees "now" earlier in the west, later in the east
+InPeriod(who) ==
+    IF clock.who # who THEN TRUE
+    ELSE IF Bug = "localtime" /\ clock.tz \in West THEN clock.kind \in {"expires1h", "expired1h"}
+    ELSE IF Bug = "localtime" /\ clock.tz \in East THEN clock.kind \in {"issued1h", "notyet1h"}
+    ELSE clock.kind \in InKinds
+
+(***************************************************************************)
 (* Digest shapes.                                                          *)
 (***************************************************************************)
 NoDigest == [site |-> "none", cls |-> "ord"]
 DigestClasses == {"z1", "z2", "lz", "sp", "nl"}
 DigestSites(p) == IF p = "ledger" THEN {"pkh", "tw_ui", "tw_sg", "ui_hash", "s_hash"} ELSE {"cm", "ak", "pkh"}
-DigestChoices(p, fr, c, a, nt, sh) ==
+DigestChoices(p, fr, c, a, nt, sh, ck) ==
     {NoDigest} \cup
     (IF a = [site |-> "none", idx |-> 0] /\ c = Cfg1(p, fr) /\ nt = Net("hex", 0, "file")
-        /\ sh = [site |-> "none", cls |-> "any"]
+        /\ sh = [site |-> "none", cls |-> "any"] /\ ck = [tz |-> "UTC0", who |-> "none", kind |-> "far"]
      THEN {[site |-> st, cls |-> cl] : st \in DigestSites(p), cl \in DigestClasses} ELSE {})
 DigestAt(site) == IF digest.site = site THEN digest.cls ELSE "ord"
 \* a comparison that strips trailing zero bytes from the field first loses a digest that ends in one
@@ -169,10 +203,11 @@ Is(site) == alt.site = site /\ (~Multi \/ acc.round = 2)
 \* histories are explored on the plain shape, typed UD values, the root from a file, any alteration that
 \* can happen in an attestation run (the onboarding answers are not asked for again)
 OnboardSites == {"dc_hdr", "dc_key", "dc_sig", "en_key", "en_sig"}
-Hists(p, fr, c, a, nt, sh, dg) ==
+Hists(p, fr, c, a, nt, sh, dg, ck) ==
     {"single"} \cup
     (IF c = Cfg1(p, fr) /\ nt = Net("hex", 0, "file") /\ sh = [site |-> "none", cls |-> "any"]
-        /\ dg = [site |-> "none", cls |-> "ord"] /\ a.site \notin OnboardSites
+        /\ dg = [site |-> "none", cls |-> "ord"] /\ ck = [tz |-> "UTC0", who |-> "none", kind |-> "far"]
+        /\ a.site \notin OnboardSites
      THEN (IF p = "ledger" THEN {"reattest", "inplace", "sameout", "reuse0"} ELSE {"sameout", "two"})
      ELSE {})
 \* the device's blockchain state in run r (it moves on between the runs), and the UD value it was handed
@@ -329,6 +364,7 @@ Obs0(p, d, a, nt) ==
                   node_n |-> "0xn", node_url |-> "node_url", rootvia |-> nt.rootvia, root_url |-> "root_url",
                   http |-> <<>>, ud_sent |-> "", att_file |-> "no", contacted |-> "no",
                   g_err |-> "none", v_err |-> "none",
+                  tz |-> "UTC0", when_who |-> "none", when_kind |-> "far",
                   sigsite |-> "none", sigclass |-> "any", digsite |-> "none", digclass |-> "ord",
                   hist |-> "single", dev_prev |-> d, prev_ok |-> "na", prevfile |-> <<>>,
                   earlier_before |-> <<>>, earlier_after |-> <<>>,
@@ -343,23 +379,28 @@ Init == /\ acc = Acc0
              IF p = "ledger"
              THEN \E fr \in Framings : \E c \in LedgerCfgs(fr) : \E a \in LedgerAlts(fr, c) :
                   \E nt \in Nets(p, fr, c, a) : \E sh \in ShapeChoices(p, fr, c, a, nt) :
-                  \E dg \in DigestChoices(p, fr, c, a, nt, sh) : \E h \in Hists(p, fr, c, a, nt, sh, dg) :
+                  \E dg \in DigestChoices(p, fr, c, a, nt, sh, NoClock) :
+                  \E h \in Hists(p, fr, c, a, nt, sh, dg, NoClock) :
                     /\ dev = LedgerDev(fr, nt) /\ cfg = c /\ alt = a /\ net = nt /\ shape = sh /\ pc = "onboard"
-                    /\ hist = h /\ digest = dg
+                    /\ hist = h /\ digest = dg /\ clock = NoClock
                     /\ obs = [Obs0(p, LedgerDev(fr, nt), a, nt) EXCEPT !.sigsite = sh.site, !.sigclass = sh.cls,
                                                                        !.digsite = dg.site, !.digclass = dg.cls,
                                                                        !.hist = h]
              ELSE \E c \in SgxCfgs : \E a \in SgxAlts(c) : \E nt \in Nets(p, "current", c, a) :
                   \E sh \in ShapeChoices(p, "current", c, a, nt) :
-                  \E dg \in DigestChoices(p, "current", c, a, nt, sh) : \E h \in Hists(p, "current", c, a, nt, sh, dg) :
+                  \E ck \in ClockChoices(p, "current", c, a, nt, sh) :
+                  \E dg \in DigestChoices(p, "current", c, a, nt, sh, ck) :
+                  \E h \in Hists(p, "current", c, a, nt, sh, dg, ck) :
                     /\ dev = SgxDev(nt) /\ cfg = c /\ alt = a /\ net = nt /\ shape = sh /\ pc = "ud" /\ hist = h
-                    /\ digest = dg
+                    /\ digest = dg /\ clock = ck
                     /\ obs = [Obs0(p, SgxDev(nt), a, nt) EXCEPT !.sigsite = sh.site, !.sigclass = sh.cls,
+                                                                !.tz = ck.tz, !.when_who = ck.who, !.when_kind = ck.kind,
+                                                                !.alt = IF ck.kind \in OutKinds THEN "period" ELSE a.site,
                                                                 !.digsite = dg.site, !.digclass = dg.cls,
                                                                 !.hist = h]
 
 Go(p) == pc' = p
-Keep == UNCHANGED <<dev, cfg, alt, net, shape, digest, hist>>
+Keep == UNCHANGED <<dev, cfg, alt, net, shape, clock, digest, hist>>
 FailOnboard == /\ obs' = [obs EXCEPT !.g_onboard = "fail"] /\ Go("done")
 FailAttest  == /\ obs' = [obs EXCEPT !.g_attest = "fail", !.g_err = "AdminError"] /\ Go("done")
 
@@ -565,9 +606,9 @@ VerifySgx(file) ==
         q == ElOf(file, "quote")  a == ElOf(file, "attestation")
         pck == ElOf(file, "quoting_enclave")  pca == ElOf(file, "platform_ca")
         cm == q.aux[1]
-        chain == /\ Verifies(rc.sig, rc.tbs[2], "none", rc.tbs)            \* self-signed root
-                 /\ Verifies(pca.sig, rc.tbs[2], "none", pca.msg)
-                 /\ Verifies(pck.sig, pca.msg[2], "none", pck.msg)
+        chain == /\ Verifies(rc.sig, rc.tbs[2], "none", rc.tbs) /\ InPeriod("root")   \* self-signed root
+                 /\ Verifies(pca.sig, rc.tbs[2], "none", pca.msg) /\ InPeriod("pca")
+                 /\ Verifies(pck.sig, pca.msg[2], "none", pck.msg) /\ InPeriod("pck")
                  /\ HashOf(<<a.aux[1][1], a.aux[2][1]>>) = a.msg[2] /\ Compares("ak")
                  /\ Verifies(a.sig, pck.msg[2], "none", a.msg)
                  /\ (Bug = "nobind" \/ (HashOf(cm) = q.msg[5] /\ Compares("cm")))
@@ -640,6 +681,8 @@ NeverFourPages   == ~(Terminal /\ cfg.uip = 4 /\ obs.verify = "ok")
 NeverSecondRunOk == ~(Terminal /\ obs.hist # "single" /\ obs.verify = "ok")
 NeverInplaceOk   == ~(Terminal /\ obs.hist = "inplace" /\ obs.verify = "ok")
 NeverSecondRunAlteredFails == ~(Terminal /\ obs.hist # "single" /\ obs.alt # "none" /\ obs.verify = "fail")
+NeverZonedOk     == ~(Terminal /\ obs.tz # "UTC0" /\ obs.when_kind \in InKinds /\ obs.verify = "ok")
+NeverZonedRefused == ~(Terminal /\ obs.tz # "UTC0" /\ obs.when_kind \in OutKinds /\ obs.verify = "fail")
 NeverDigestOk    == ~(Terminal /\ obs.digclass # "ord" /\ obs.verify = "ok")
 NeverShapedOk    == ~(Terminal /\ obs.sigclass # "any" /\ obs.verify = "ok")
 NeverNodeOk      == ~(Terminal /\ obs.udsrc = "node" /\ obs.verify = "ok")
